@@ -73,7 +73,12 @@ def judge(ctx, case, prog, expected, out):
 
 
 def fresh(basis):
+    """A class object as a fresh process would see it: the class cache is cleared through the public API and every
+    other process-wide dict kept on Av (per-class locks, memo tables a refactoring may add) is emptied."""
     Av.clear_cache()
+    for name, val in list(vars(Av).items()):
+        if isinstance(val, dict) and name != "__dict__":
+            val.clear()
     return c02.make_av(basis, 0)
 
 
